@@ -198,6 +198,20 @@ def gen_trace(recipe):
           out, res = outcome_of(lambda: _initialize_metric_mahalanobis(inp, arr, random_state=seed, strict_pd=strict))
           events.append({'ev': 'InitMetric', 'init': 'array', 'd': d, 'strict': strict, 'outcome': out, 'pts': [],
                          'M': dym(res) if res is not None else [], 'M2': [], 'chol': [], 'arr': dym(arr), 'arr_class': cls_})
+      # an SPD array is an SPD array whatever its dtype: integer-typed priors through the learners that take one
+      spd_i = np.round(spd * 2.0).astype(np.int64)
+      spd_i = (spd_i + spd_i.T) // 2 + d * np.eye(d, dtype=np.int64)
+      if np.linalg.eigvalsh(spd_i.astype(float)).min() > 0.5:
+        for name, key in (('ITML', 'prior'), ('LSML', 'prior'), ('SDML', 'prior'), ('MMC', 'init')):
+          tr = gen.training(rng, name, X=X, y=y)
+          o = dict(gen.FAST[name])
+          if name == 'SDML':
+            o['balance_param'] = 2.0 ** -20
+          oi, ri = outcome_of(lambda: gen.CLS[name](**dict(o, **{key: spd_i.copy()})).fit(*tr['fit_args']))
+          of, rf = outcome_of(lambda: gen.CLS[name](**dict(o, **{key: spd_i.astype(float)})).fit(*tr['fit_args']))
+          if of == 'ok':
+            events.append({'ev': 'ArrayPriorDtype', 'via': name, 'outcome_int': oi, 'L_float': dym(rf.components_),
+                           'L_int': dym(ri.components_) if ri is not None else []})
       # through learners that must reject a singular prior
       for name in ('ITML', 'LSML', 'SDML'):
         tr = gen.training(rng, name, X=X, y=y)
